@@ -59,7 +59,7 @@ def gen_case(rng):
             from rv import regexgen
             import re
             for _t in range(10):
-                node = regexgen.gen_pattern(rng, depth=rng.choice((0, 1, 2)), anchors=True)
+                node = regexgen.gen_pattern(rng, depth=rng.choice((0, 1, 2)), anchors=True, big_repeat=rng.random() < 0.3)
                 pat = node.render()
                 if node.maxlen(40) > 2000:
                     continue
